@@ -1,0 +1,36 @@
+//go:build verif
+
+// Contracts for the deductive verifier in /verif (comment-only; compiled only with -tags verif).
+// Under contract: one iteration of each scale's worker (file name symbolic, file contents a ghost function of
+// the name) and the row writer. main, toBeTestFileNum and the filepath.Walk callbacks are not under contract.
+// The expected column list is generated from the header constants by the verifier on every run (C13).
+
+package main
+
+//@ func worker_2E4
+//@   modifies nothing
+//@   ghost sent, spawned
+//@   loop 1
+//@     assumes filelen(filename) == 2500
+
+//@ func worker_1E6
+//@   modifies nothing
+//@   ghost sent, spawned
+//@   loop 1
+//@     assumes filelen(filename) == 125000
+
+//@ func worker_1E8
+//@   modifies nothing
+//@   ghost sent, spawned
+//@   loop 1
+//@     assumes filelen(filename) == 12500000
+
+//@ func resultWriter
+//@   requires wg != nil
+//@   modifies nothing
+//@   ghost done, writes
+//@   loop 1
+//@     assumes r != nil && len(r.P) >= 0 && len(r.Q) >= len(r.P)
+//@     invariant done(wg) == done(wg)@pre + $i
+//@   loop 2
+//@     invariant 0 <= j && j <= len(r.P) && done(wg) == done(wg)@pre + $i1
